@@ -288,6 +288,12 @@ def instrument(func, shadows=None, loop_cuts=None, extra_globals=None, drop_call
     else:
         g = dict(func.__globals__)
         g.update(B.SHADOWS)
+        # a module that imported decimal.Decimal by name gets the proxy-aware constructor (concrete arguments: the real class)
+        import decimal as _decimal
+        for _n, _v in list(g.items()):
+            if _v is _decimal.Decimal:
+                from .floats import s_Decimal
+                g[_n] = s_Decimal
     if shadows:
         g.update(shadows)
     if extra_globals:
